@@ -143,10 +143,20 @@ def emit(prog):
                     lines.append("      bid %s %s" % (it[1], it[2]))
                 elif k == "rec":
                     lines.append("      do verif record at %s" % it[1])
-                elif k == "put":
-                    lines.append("      put %s into %s" % (it[2], it[1]))
-                elif k == "inc":
-                    lines.append("      inc %s with %s" % (it[1], it[2]))
+                elif k in ("put", "inc", "copy"):
+                    ctx = it[3] if len(it) > 3 else "enter"
+                    lines.append("      " + ctx)
+                    if k == "put":
+                        lines.append("      put %s into %s" % (it[2], it[1]))
+                    elif k == "inc":
+                        lines.append("      inc %s with %s" % (it[1], it[2]))
+                    else:
+                        lines.append("      copy %s into %s" % (it[1], it[2]))
+                    lines.append("      native")
+                elif k == "timeout":
+                    lines.append("      timeout %s" % it[1])
+                elif k == "repeat":
+                    lines.append("      repeat %s" % it[1])
                 elif k == "raw":
                     lines.append("      " + it[1])
                 else:
